@@ -184,6 +184,8 @@ def check(prop, tier, seed):
     # every fifth channel is an https one (tonic wraps the scripted connector's pipe in TLS); on half of those the failed attempts are
     # dials that succeed and die in the TLS handshake (the peer closes before it completes)
     for i, st in enumerate(stims):
+        if i % 6 == 3:      # a dialer behind a tower ConcurrencyLimit (it must be polled ready before it is called)
+            st['limited_dialer'] = True
         if i % 5 == 2:
             st['tls'] = True
             if (i // 5) % 2 == 0:
